@@ -344,6 +344,11 @@ def run(F, rep, tier):
             names = [c.target.rsplit('::', 1)[-1] for c in calls]
             for cl in cls:
                 names += [c.target.rsplit('::', 1)[-1] for c in F.body(cl).calls]
+            # one level of small crate helpers (a reversed-comparison helper extracted from the arms), with their closures
+            for c in calls:
+                if c.target.startswith('nnum::') and F.has_fn(c.target) and not c.target.endswith('cmp_nint_f64') and len(F.body(c.target).blocks) < 40:
+                    for hb in [F.body(c.target)] + [F.body(x) for x in F.closures_of(c.target)]:
+                        names += [x.target.rsplit('::', 1)[-1] for x in hb.calls]
             kinds[ks] = names
         for ks, must, mustnot in ((('Int', 'Float'), ['cmp_nint_f64'], ['reverse']), (('Float', 'Int'), ['cmp_nint_f64', 'reverse'], [])):
             names = kinds.get(ks)
@@ -441,8 +446,29 @@ def run(F, rep, tier):
             continue
         n6 += 1
         tests = [c for c in b.calls if c.target.rsplit('::', 1)[-1] in ('is_infinite', 'is_finite', 'infinity_sign')]
+
+        def _callers_separate(f_, depth=0):
+            # a helper extracted from an ordering / equality function: every caller is an equality, or tests for infinity before the call
+            cs_ = [g for g in closure if f_ in cg.edges.get(g, ()) and g != f_]
+            if not cs_ or depth > 2:
+                return False
+            for g in cs_:
+                if 'PartialEq' in g:
+                    continue
+                gb = F.body(g) if F.has_fn(g) else None
+                if gb is None:
+                    return False
+                gt = [c for c in gb.calls if c.target.rsplit('::', 1)[-1] in ('is_infinite', 'is_finite', 'infinity_sign')]
+                sites = [c for c in gb.calls if c.target == f_]
+                if sites and gt and all(any(gb.dominates(t.bb, c.bb) for t in gt) for c in sites):
+                    continue
+                if not _callers_separate(g, depth + 1):
+                    return False
+            return True
         if tests and all(any(b.dominates(t.bb, c.bb) for t in tests) for c in convs):
             rep.ok('R8.6', fn, 'infinity test dominates %d conversion(s)' % len(convs))
+        elif _callers_separate(fn):
+            rep.ok('R8.6', fn, 'helper: every caller is an equality or separates infinities before calling it')
         else:
             rep.viol('R8.6', fn + '|inf-before-exact', 'ordering code converts a float exactly without separating +-inf first: a rational and an infinity become "incomparable"', convs[0].loc())
     rep.floor('R8.6', 'ordering functions using the partial exact conversion', n6, 1)
